@@ -160,8 +160,12 @@ func c17Main(args []string) error {
 				base, cancelled, _ := strings.Cut(kind, "-")
 				fileOps := cancelled == "ops"
 				long := cancelled == "long"
-				if fileOps || long {
+				burst := cancelled == "burst"
+				if fileOps || long || burst {
 					cancelled = ""
+				}
+				if burst {
+					prog = []string{"PROBE", nonce, "say:3:" + marker, "fdsfd:3", fmt.Sprintf("exit:%d", want)}
 				}
 				if long {
 					// a run that outlives Ping's 3 s socket deadline while other calls queue on the same environment
@@ -229,6 +233,11 @@ func c17Main(args []string) error {
 					return
 				}
 				<-start
+				if !rd.Solo && rd.ID%2 == 1 {
+					// every other round starts its runs staggered instead of all at once: a launch then begins
+					// while its neighbours' launches are finishing (descriptor numbers being released and re-used)
+					time.Sleep(time.Duration(i*3) * time.Millisecond)
+				}
 				t0 := time.Now()
 				if cancelled != "" {
 					time.AfterFunc(40*time.Millisecond, cancel)
@@ -298,6 +307,21 @@ func c17Main(args []string) error {
 					prog[0] = probe
 					rr := &ptrace.Runner{Args: prog, Env: []string{"PATH=/usr/bin:/bin"}, Files: files, Seccomp: allowAllFilter(),
 						Handler: allowAll{}, Limit: runner.Limit{TimeLimit: 200 * time.Second, MemoryLimit: runner.Size(2 << 30)}}
+					if burst {
+						// a dozen short runs back to back, each with a sync callback, next to fifteen neighbours doing
+						// the same: launches begin while other launches finish, over and over; every one of them must
+						// still be this slot's own run
+						rr.SyncFunc = func(int) error { return nil }
+						for k := 0; k < 12; k++ {
+							own.Truncate(0)
+							own.Seek(0, 0)
+							o = withTimeout(func() opResult { return classify(rr.Run(ctx)) })
+							if o.R != "verdict" || o.Status != 7 || o.Code != want {
+								break
+							}
+						}
+						break
+					}
 					o = withTimeout(func() opResult { return classify(rr.Run(ctx)) })
 				case "unshare":
 					prog[0] = "/probe/cprobe"
@@ -357,7 +381,23 @@ func c17Main(args []string) error {
 		}
 		if !rd.Solo {
 			close(start)
-			wg.Wait()
+			fin := make(chan struct{})
+			go func() { wg.Wait(); close(fin) }()
+			select {
+			case <-fin:
+			case <-time.After(150 * time.Second):
+				// some run of this round is stuck where no timeout applies (e.g. reading its own file through a
+				// descriptor number that now belongs to something else): report what there is and leave -- the
+				// process is not in a state in which further rounds would mean anything
+				for i := range res {
+					if res[i].Kind == "" {
+						res[i] = c17Run{Round: rd.ID, Slot: i, Kind: rd.Runs[i], Solo: rd.Solo, R: "hang", Fds: []string{}}
+					}
+					out.Write(res[i])
+				}
+				out.Close()
+				os.Exit(0)
+			}
 		}
 		hung := false
 		for _, r := range res {
